@@ -599,7 +599,25 @@ func (env *Env) evalCall(x *ast.CallExpr) Val {
 			ls := layout(vt)
 			bname := qsym(fc.fresh("q_" + vid.Name))
 			saved, had := env.bound[vid.Name]
-			env.bound[vid.Name] = Val{T: vt, L: []string{bname}}
+			bv := Val{T: vt, L: []string{bname}}
+			if ls[0].Sort == "(_ BitVec 64)" {
+				// Quantify over the absolute element position of the first slice access S[i+c] instead of over i:
+				// the access then reads (select E p), a pattern E-matching finds whatever shape the index
+				// arithmetic of a ground term has. p -> i = p - S.off - c is a bijection on 64-bit words.
+				if sx, rest := quantAnchor(body, vid.Name); sx != nil {
+					if sv := env.eval(sx); len(sv.L) == 4 {
+						if _, ok := sv.T.Underlying().(*types.Slice); ok {
+							it := app("bvsub", bname, sv.L[1])
+							for _, r := range rest {
+								rv := env.typed(env.eval(r), vt)
+								it = app("bvsub", it, rv.L[0])
+							}
+							bv = Val{T: vt, L: []string{it}}
+						}
+					}
+				}
+			}
+			env.bound[vid.Name] = bv
 			t := env.evalBool(body)
 			if had {
 				env.bound[vid.Name] = saved
@@ -899,4 +917,69 @@ func (env *Env) addrOf(e ast.Expr) Val {
 		cur = Val{T: types.NewPointer(ft), L: []string{bvLit(uint64(k), 16), cur.L[0], bvLit(0, 64)}}
 	}
 	return cur
+}
+
+// quantAnchor finds the first index expression S[e] in body where e is a sum with exactly one summand equal to
+// the identifier name and neither S nor the other summands mention name; it returns S and the other summands.
+func quantAnchor(body ast.Expr, name string) (ast.Expr, []ast.Expr) {
+	mentions := func(e ast.Expr) bool {
+		found := false
+		ast.Inspect(e, func(n ast.Node) bool {
+			if id, ok := n.(*ast.Ident); ok && id.Name == name {
+				found = true
+			}
+			return !found
+		})
+		return found
+	}
+	var sx ast.Expr
+	var rest []ast.Expr
+	ast.Inspect(body, func(n ast.Node) bool {
+		if sx != nil {
+			return false
+		}
+		if call, ok := n.(*ast.CallExpr); ok {
+			if id, ok := call.Fun.(*ast.Ident); ok && (id.Name == "forall" || id.Name == "exists") {
+				return false
+			}
+		}
+		ix, ok := n.(*ast.IndexExpr)
+		if !ok || mentions(ix.X) {
+			return true
+		}
+		var leaves []ast.Expr
+		var flat func(e ast.Expr)
+		flat = func(e ast.Expr) {
+			switch e := e.(type) {
+			case *ast.ParenExpr:
+				flat(e.X)
+				return
+			case *ast.BinaryExpr:
+				if e.Op == token.ADD {
+					flat(e.X)
+					flat(e.Y)
+					return
+				}
+			}
+			leaves = append(leaves, e)
+		}
+		flat(ix.Index)
+		n1 := 0
+		var others []ast.Expr
+		for _, l := range leaves {
+			if id, ok := l.(*ast.Ident); ok && id.Name == name {
+				n1++
+			} else if mentions(l) {
+				return true
+			} else {
+				others = append(others, l)
+			}
+		}
+		if n1 != 1 {
+			return true
+		}
+		sx, rest = ix.X, others
+		return false
+	})
+	return sx, rest
 }
